@@ -1,8 +1,8 @@
 (* C20 - A learned MIDI controller drives exactly its parameter, within its
    range.  Only the property theorems, each closed by [exact]; proofs live in
    Midi/MidiProofs.v, the model in Midi/MidiModel.v, the Spec in Midi/MidiSpec.v. *)
-From Coq Require Import List ZArith.
-From RtoscV Require Import Midi.MidiModel Midi.MidiSpec Midi.MidiProofs.
+From Coq Require Import List ZArith QArith.
+From RtoscV Require Import Midi.MidiModel Midi.MidiSpec Midi.MidiProofs Midi.MidiFloat.
 Import ListNotations.
 Local Open Scope Z_scope.
 
@@ -35,3 +35,23 @@ Theorem C20_refuted :
     option_map msgs_of (nth_error tr 21) = Some [ {| maddr := 2; mvalue := VFloat (bi_float {| bmin := (-3, -1); bmax := (11, -2) |} 9) |} ] /\
     quiescent evs tr = false.
 Proof. exact d19_refuted. Qed.
+
+(* the value a callback built by generateNewBijection sends lies within the
+   port's [min,max] ('i' ports: the integer parts) and carries the port's
+   address.  _partial: the IEEE rounding facts rounding_ok (monotone, exact on
+   the bounds and 0, relative error on the two inexact operations) are
+   hypotheses; the executable model uses rf = r24, rd = r53.
+   Full statement: the same with rf := r24, rd := r53 and no rounding_ok. *)
+Theorem C20_bijection_range_partial : forall rf rd p a x,
+  rounding_ok rf rd {| bmin := pmin p; bmax := pmax p |} ->
+  (dy2Q (pmin p) <= dy2Q (pmax p))%Q -> 0 <= x < 16384 ->
+  maddr (cb_gen rf rd (mk_cb p a) x) = a /\
+  mval_in_range p (mvalue (cb_gen rf rd (mk_cb p a) x)).
+Proof. exact cb_range. Qed.
+
+(* ... and grows with the 14-bit input (same hypotheses) *)
+Theorem C20_bijection_monotone_partial : forall rf rd p a x1 x2,
+  rounding_ok rf rd {| bmin := pmin p; bmax := pmax p |} ->
+  (dy2Q (pmin p) <= dy2Q (pmax p))%Q -> 0 <= x1 -> x1 <= x2 -> x2 < 16384 ->
+  mval_le (mvalue (cb_gen rf rd (mk_cb p a) x1)) (mvalue (cb_gen rf rd (mk_cb p a) x2)).
+Proof. exact cb_monotone. Qed.
